@@ -8,6 +8,14 @@ CHECKS = {
   "text": "Runs convert_date / excel_to_date_time_object / the date formatter on every day of the 1900 system at several times of day and on every second of boundary days; compares with independent civil-calendar arithmetic, checks monotonicity and the inverse direction to the second.",
   "note": "Trusted: days-from-civil reference in the harness. 1904 system and time zones are outside the property.",
   "technique": "runtime monitoring: differential oracle (independent calendar arithmetic), exhaustive over days"},
+ "C19": {"level": "exploration", "python": True,
+  "text": "Formats tens of thousands (quick) to 1.5 million (thorough) generated numbers (<= 15 significant digits; ties, 9-chains that carry, zeros after the point, negatives, 1e-7..1e15) under every fixed-decimal / thousands / percentage pattern through the real Cell::get_formatted_value and to_formatted_string, and every built-in format id under a panic guard; each output is compared with an exact Python-decimal rendering of the float's shortest representation.",
+  "note": "Trusted: Python's decimal and repr(float); '-0.00' and '0.00' are both accepted when a negative number rounds to zero.",
+  "technique": "runtime monitoring: differential oracle (exact big-decimal reference) over generated inputs, panic monitor"},
+ "C20": {"level": "exploration", "python": True,
+  "text": "Exports generated sparse sheets with all 60 option combinations through the real csv::write_writer; the bytes are decoded with the selected encoding by Python codecs and parsed by an RFC-4180 parser written for this purpose, and the recovered grid is compared with the intended grid (rows 1..max x columns 1..max of the active sheet).",
+  "note": "Trusted: Python codecs, the 60-line parser in monitors/csv4180.py, Rust's White_Space set reproduced for the trim expectation. Without a wrap character the standard quote '\"' is the parser's quote character.",
+  "technique": "runtime monitoring: independent decoder/parser as oracle over generated sheets x exhaustive option combinations"},
 }
 PENDING = {p: "check not built yet in this session (design in DESIGN.md section 2); will be claimed once its monitor runs silent on the unchanged tree" for p in
- ["C01","C02","C03","C04","C05","C06","C07","C08","C09","C10","C11","C12","C13","C14","C15","C16","C19","C20"]}
+ ["C01","C02","C03","C04","C05","C06","C07","C08","C09","C10","C11","C12","C13","C14","C15","C16"]}
